@@ -49,7 +49,9 @@ class FunctionNode(ConfigDict):
 
     @namespace('ayns')
     def on_merge_impl(self, prefix, other):
-        if isinstance(other, str):
+        if isinstance(other, str) and other.ayns.tag is None:
+            # (a string names a new target; the nodes which merely derive from str - !xref, !eval, !import, f-strings - are values
+            # like any other scalar and are merged as such)
             if other.ayns.has_priority_over(self, if_equal=True):
                 self._func = other
                 self.clear()
